@@ -706,11 +706,53 @@ class G01(object):
             return self.effect(d, [])
         return self.gen(ty, d, [])
 
+    def objects(self):
+        """a procedure with 0..2 parameters and internal definitions that returns closures over them, applied several
+        times; the objects are used interleaved: every activation owns its own locations (also those of a procedure
+        without parameters), and internal definitions are re-initialised by every call"""
+        self.dist.hit("objects-internal-define")
+        tag = str(self.rng.randint(1, 99))
+        k = self.rng.randint(0, 2)
+        params = ["p", "q"][:k]
+        init = self.pick(["0", "10"] + params) if params else self.pick(["0", "10", "(quote a)"])
+        num = init != "(quote a)"
+        style = self.rng.randrange(4)
+        if style == 0 and num:      # counter: internal variable + internal procedure
+            body = "(define st %s) (define (bump) (set! st (+ st 1)) st) (lambda () (bump))" % init
+        elif style == 1 and num:    # getter/setter pair over one internal variable
+            body = "(define st %s) (cons (lambda () st) (lambda (v) (set! st (+ st v)) st))" % init
+        elif style == 2:            # the internal variable takes a value that differs per call (a global counter)
+            body = "(define id (begin (set! objn%s (+ objn%s 1)) objn%s)) (lambda () id)" % (tag, tag, tag)
+        else:                       # self-recursion through a parameterless procedure with an internal definition
+            body = "(define here objn%s) (set! objn%s (+ objn%s 1)) (if (< here 3) (begin (mk%s%s) here) here)" % (
+                tag, tag, tag, tag, "".join(" 1" for _ in params))
+        forms = ["(define objn%s 0)" % tag,
+                 "(define (mk%s%s) %s)" % (tag, "".join(" " + x for x in params), body)]
+        args = lambda: "".join(" " + self.lit_int() for _ in params)
+        if style == 3 or (style in (0, 1) and not num):
+            if style != 3:
+                return forms[:1] + ["(define (mk%s%s) (define id (begin (set! objn%s (+ objn%s 1)) objn%s)) (lambda () id))"
+                                    % (tag, "".join(" " + x for x in params), tag, tag, tag),
+                                    "(define oa%s (mk%s%s)) (define ob%s (mk%s%s))" % (tag, tag, args(), tag, tag, args()),
+                                    "(list (oa%s) (ob%s) (oa%s))" % (tag, tag, tag)]
+            return forms + ["(mk%s%s)" % (tag, args()), "objn%s" % tag]
+        forms.append("(define oa%s (mk%s%s)) (define ob%s (mk%s%s))" % (tag, tag, args(), tag, tag, args()))
+        if style == 1:
+            forms.append("(list ((cdr oa%s) 5) ((car ob%s)) ((cdr ob%s) 1) ((car oa%s)))" % (tag, tag, tag, tag))
+        else:
+            forms.append("(list (oa%s) (oa%s) (ob%s) (oa%s))" % (tag, tag, tag, tag))
+        return forms
+
     def session(self):
         nforms = self.rng.randint(1, 8)
         if self.chance(0.3):
             self.inject = self.pick(["unbound", "arity", "type", "nonproc", "error"])
-        forms = []
+        if self.chance(0.1):
+            nforms = self.rng.randint(0, 3)
+            pre = self.objects()
+        else:
+            pre = []
+        forms = list(pre)
         for _ in range(nforms):
             d = self.rng.randint(1, 4)
             text = self.toplevel(d)
